@@ -428,14 +428,21 @@ fn registry_sets(rng: &mut Rng, n: usize) -> Vec<Set> {
             }
         };
         let block_names = ["k", "j", "m"];
+        // one set in three is a straight inheritance chain t0 → t1 → … in which most templates
+        // define the same blocks (what the lineage walk and `super()` levels are about)
+        let chain = i % 3 == 0;
         let mut tpls = Vec::new();
         for (j, name) in names.iter().enumerate() {
             let mut tp = TplS::new(name);
             tp.tag = format!("T{j}");
-            if rng.chance(2, 5) {
+            if chain {
+                if j + 1 < k {
+                    tp.parent = Some(if rng.chance(1, 2) { base_names[j + 1].clone() } else { names[j + 1].clone() });
+                }
+            } else if rng.chance(2, 5) {
                 tp.parent = Some(refer(rng));
             }
-            let nb = rng.below(3);
+            let nb = if chain { 1 + rng.below(2) } else { rng.below(3) };
             for b in 0..nb {
                 let nested = if b > 0 && rng.chance(1, 3) { Some(block_names[b - 1].to_string()) } else { None };
                 tp.blocks.push(BlockS {
@@ -476,7 +483,7 @@ fn registry_sets(rng: &mut Rng, n: usize) -> Vec<Set> {
             Run { ctx: vec![("hv".into(), "s:3c623e2627".into())], global: vec![], kind: "generator".into() },
             Run { ctx: vec![], global: vec![], kind: "empty".into() },
         ];
-        out.push(Set { stream: format!("registry.{}", if use_prefix { "prefixes" } else { "plain" }), templates, delims: D::default(), suffixes: if i % 2 == 0 { default_suffixes() } else { on_off("on") }, prefixes, entries, runs });
+        out.push(Set { stream: format!("registry.{}", if chain { "chain" } else if use_prefix { "prefixes" } else { "plain" }), templates, delims: D::default(), suffixes: if i % 2 == 0 { default_suffixes() } else { on_off("on") }, prefixes, entries, runs });
     }
     out
 }
@@ -1219,6 +1226,9 @@ fn main() {
             let bad_stacks = o.starts_with("ok ") && stacks != "0,0,0";
             if bad_panic || bad_stacks {
                 report.oracle_failures += 1;
+                if report.oracle_failures > 6 {
+                    continue;
+                }
                 let mut one = set.clone();
                 one.entries = vec![set.entries[*ei].clone()];
                 one.runs = vec![set.runs[*ri].clone()];
